@@ -136,7 +136,7 @@ macro_rules! run_type {
                         $s.check(&format!("RangeFrom<{tn}> prefix"), json!(format!("{:?}", f)), &json!(format!("{:?}", q)));
                         // konst's take(n) pulls the (n+1)-th item before it stops; when that item is T::MAX the source steps
                         // past the maximum (a debug-build overflow panic, as in std's RangeFrom::next) - outside the property
-                        let pulls_max = q.last().map_or(false, |l| l.to_i() + 1 >= <$t as Lim>::max().to_i());
+                        let pulls_max = q.last().map_or(a.to_i(), |l| l.to_i() + 1) >= <$t as Lim>::max().to_i();
                         if !pulls_max {
                             let mut fe = Vec::new(); for_each!{x in a.., take(q.len()) => fe.push(x); }
                             $s.check(&format!("for_each!(RangeFrom<{tn}>,take)"), json!(format!("{:?}", fe)), &json!(format!("{:?}", q)));
